@@ -230,12 +230,7 @@ impl absolute::LockTime {
     #[verifier::external_body]
     pub fn to_consensus_u32(self) -> (r: u32) ensures r == (match self { absolute::LockTime::Blocks(n) => n, absolute::LockTime::Seconds(n) => n }) { unimplemented!() }
 }
-impl relative::LockTime {
-    #[verifier::external_body]
-    pub fn to_consensus_u32(self) -> (r: u32)
-        ensures r == (match self { relative::LockTime::Blocks(n) => n as u32, relative::LockTime::Time(n) => (0x0040_0000u32 + n as u32) as u32 })
-    { unimplemented!() }
-}
+// relative::LockTime::to_consensus_u32 (BIP68 encoding) now comes with c18_semantic's stub of the type
 """
 
 # ======================================================================================================================
